@@ -120,6 +120,7 @@ func LoadMint(config Config) (*Mint, error) {
 		ctx:        ctx,
 		cancel:     cancel,
 	}
+	mint.db = verifWrapLoad(mint.db)
 
 	// if no keysets stored, just create a new one
 	if len(dbKeysets) == 0 {
